@@ -147,6 +147,8 @@ func TestC05(t *testing.T) {
 	regressFixed(t, c, fs, "C05")
 	cfg := defaultGenCfg()
 	cfg.MaxSteps = 20
+	cfg.AllowTruncate = true // a truncation right after a rejected block must not bring the rejected block back
+	cfg.WTruncate = 4
 	c.Check(t, "node-machine-faults", hx.N(300, 2000), func(cs *hx.Case) {
 		rt := cs.RT()
 		opts := hx.DefaultOpts()
